@@ -241,6 +241,10 @@ class Eval:
                 return 1 if (self.ev(ks[0]) and self.ev(ks[1])) else 0
             if op == "||":
                 return 1 if (self.ev(ks[0]) or self.ev(ks[1])) else 0
+            if op == "/":
+                cnt = _array_count_idiom(ks)
+                if cnt is not None:
+                    return cnt               # sizeof(table) / sizeof(table[0])
             a = self.ev(ks[0])
             b = self.ev(ks[1])
             return self._binop(op, a, b, n, ks)
@@ -279,8 +283,20 @@ class Eval:
             return self.deref(base + idx * ct[1], n)
         if k == "UnaryExprOrTypeTraitExpr" and n.get("name") == "sizeof":
             t = (n.get("argType") or {}).get("qualType")
-            if t and _clean(t) in SIZEOF:
-                return SIZEOF[_clean(t)]
+            if not t and ks:
+                t = A.qtype(A.strip(ks[0]))          # sizeof expression: the operand's type
+            if t:
+                import re as _re
+                m = _re.match(r"^(.*?)((?:\s*\[\d+\])+)\s*$", t)
+                mult = 1
+                if m:
+                    t = m.group(1)
+                    for d_ in _re.findall(r"\[(\d+)\]", m.group(2)):
+                        mult *= int(d_)
+                if t.rstrip().endswith("*"):
+                    return 8 * mult
+                if _clean(t) in SIZEOF:
+                    return SIZEOF[_clean(t)] * mult
             raise Unknown("sizeof", n)
         raise Unknown("expression kind " + str(k), n)
 
@@ -490,6 +506,75 @@ class Eval:
         finally:
             self.env = saved
         return r
+
+
+def _array_count_idiom(ks):
+    """`sizeof(T[N]) / sizeof(T)` -> N, whatever T is (the element-count idiom over a table)"""
+    import re as _re
+
+    def sz_type(e):
+        e = A.strip_casts(e)
+        if e.get("kind") != "UnaryExprOrTypeTraitExpr" or e.get("name") != "sizeof":
+            return None
+        t = (e.get("argType") or {}).get("qualType")
+        if not t and A.kids(e):
+            t = A.qtype(A.strip(A.kids(e)[0]))
+        return t
+    ta, tb = sz_type(ks[0]), sz_type(ks[1])
+    if not ta or not tb:
+        return None
+    m = _re.match(r"^(.*?)\s*\[(\d+)\]\s*$", ta)
+    if m and _clean(m.group(1)) == _clean(tb):
+        return int(m.group(2))
+    return None
+
+
+def const_aggregate(unit, n, ev):
+    """value of `G`, `G[i]`, `G[i].f` (any nesting) where G is a variable of the unit with a brace initialiser and a
+    const-qualified type: the initialiser expression selected by the evaluated indices / the named field is evaluated.
+    Returns NotImplemented when n is not such an access."""
+    path = []
+    e = A.strip_casts(n)
+    while True:
+        k = e.get("kind")
+        if k == "MemberExpr" and A.kids(e):
+            path.append(("field", e.get("referencedMemberDecl"), e.get("name")))
+            e = A.strip_casts(A.kids(e)[0])
+        elif k == "ArraySubscriptExpr":
+            path.append(("index", A.kids(e)[1]))
+            e = A.strip_casts(A.kids(e)[0])
+        else:
+            break
+    if e.get("kind") != "DeclRefExpr" or not path:
+        return NotImplemented
+    d = unit.by_id.get((e.get("referencedDecl") or {}).get("id"))
+    if d is None or d.get("kind") != "VarDecl" or "const" not in (A.qtype(d) or "") or not A.kids(d):
+        return NotImplemented
+    if d.get("id") in ev.env:
+        return NotImplemented
+    cur = A.strip_casts(A.kids(d)[-1])
+    if cur.get("kind") != "InitListExpr":
+        return NotImplemented
+    for step in reversed(path):
+        if cur.get("kind") != "InitListExpr":
+            raise Unknown("initialiser is not a brace list", n)
+        items = A.kids(cur)
+        if step[0] == "index":
+            i = ev.ev(step[1])
+            if not isinstance(i, int) or i < 0 or i >= len(items):
+                raise Unknown("index %r outside the table's initialiser" % (i,), n)
+            cur = A.strip_casts(items[i])
+        else:
+            fd = unit.by_id.get(step[1])
+            rec = unit.parent.get(step[1]) if fd is not None else None
+            if rec is None:
+                raise Unknown("field %s: record not found" % step[2], n)
+            fields = [f for f in A.kids(rec) if f.get("kind") == "FieldDecl"]
+            idx = [j for j, f in enumerate(fields) if f.get("id") == step[1]]
+            if not idx or idx[0] >= len(items):
+                raise Unknown("field %s not in the initialiser" % step[2], n)
+            cur = A.strip_casts(items[idx[0]])
+    return ev.ev(cur)
 
 
 def switch_labels(sw):
